@@ -3,7 +3,7 @@
 # written for a code area; the property is read from the first line of NOTES.md (PROPERTY: Cxx); all
 # twenty checks are run against it (tools/seedall.py)
 set -e
-src=$1; name=$2; summary=$3; needs=$4
+src=$1; name=$2; summary=$3; needs=$4; shift 4
 pid=$(head -3 $src/NOTES.md | grep -o "C[0-9][0-9]" | head -1)
 d=/verif/seeded/$name
 mkdir -p $d
@@ -18,4 +18,4 @@ json.dump({"property":pid,"origin":"fresh sub-agent (round 5, assigned a code ar
  "confirmed":"re-run by tools/seedall.py in a fresh worktree: see last_run.json (suite result, demo exit codes with / without the change, what every check reported)"},
  open(d+"/meta.json","w"),indent=1)
 PY
-/venv/bin/python /verif/tools/seedall.py $d -j 4
+/venv/bin/python /verif/tools/seedall.py $d -j 4 "$@"
